@@ -156,9 +156,9 @@ func runHistory(p program, hist []req, classify bool) string {
 				func() {
 					defer func() { _ = recover() }()
 					h := func(c *rux.Context) { c.WriteString("[late route " + path + "]") }
-					switch i % 6 { // through any of the equivalent registration calls
-				case 5:
-					r.Any(path, h) // (all methods; both routers alike)
+					switch (i + len(path)) % 7 { // through any of the equivalent registration calls
+					case 5, 6:
+						r.Any(path, h) // (all methods; both routers alike)
 					case 0:
 						r.GET(path, h)
 					case 1:
@@ -406,3 +406,76 @@ func propProgram(t *rapid.T) {
 }
 
 func TestPropProgram(t *testing.T) { rapid.Check(t, propProgram) }
+
+// propLateRegistrationCalls: a directed version of the late-route step.  A path is answered (and cached) by a
+// catch-most route; then a route that out-ranks it for that path is registered through one of the registration
+// calls; the same request again must be answered as by the twin without cache - whichever call brought the new route.
+func propLateRegistrationCalls(t *rapid.T) {
+	ev.Case()
+	call := rapid.SampledFrom([]string{"GET", "Add", "AddNamed", "AddRoute", "AttachTo", "Any", "Group+GET", "Controller", "NamedTo"}).Draw(t, "registrationCall")
+	first := rapid.SampledFrom([]string{"users", "posts", "a"}).Draw(t, "firstSegment")
+	id := rapid.StringMatching(`[0-9]{1,3}`).Draw(t, "id")
+	method := "GET"
+	build := func(caching bool) *rux.Router {
+		var r *rux.Router
+		if caching {
+			r = rux.New(rux.CachingWithNum(uint16(rapid.IntRange(1, 3).Draw(t, "cap"))))
+		} else {
+			r = rux.New()
+		}
+		r.Add("/{a}/{b}", func(c *rux.Context) { c.WriteString("catch-most:" + c.Param("a") + "/" + c.Param("b")) }, "GET", "POST")
+		return r
+	}
+	a, b := build(true), build(false)
+	path := "/" + first + "/" + id
+	observe := func(r *rux.Router) string {
+		rec := httptest.NewRecorder()
+		r.ServeHTTP(rec, httptest.NewRequest(method, path, nil))
+		return fmt.Sprintf("%d %q", rec.Code, rec.Body.String())
+	}
+	nBefore := rapid.IntRange(1, 3).Draw(t, "requestsBefore")
+	for i := 0; i < nBefore; i++ {
+		if x, y := observe(a), observe(b); x != y {
+			t.Fatalf("before the late route: caching router %s, twin %s", x, y)
+		}
+	}
+	h := func(c *rux.Context) { c.WriteString("late:" + c.Param("id")) }
+	pat := "/" + first + "/{id}"
+	for _, r := range []*rux.Router{a, b} {
+		r := r
+		switch call {
+		case "GET":
+			r.GET(pat, h)
+		case "Add":
+			r.Add(pat, h, "GET", "POST")
+		case "AddNamed":
+			r.AddNamed("late", pat, h, "GET")
+		case "AddRoute":
+			r.AddRoute(rux.NewRoute(pat, h, "GET"))
+		case "AttachTo":
+			rux.NewRoute(pat, h, "GET").AttachTo(r)
+		case "Any":
+			r.Any(pat, h)
+		case "Group+GET":
+			r.Group("/"+first, func() { r.GET("/{id}", h) })
+		case "Controller":
+			r.Controller("/"+first, lateCtl{h})
+		default:
+			r.GET(pat, h).NamedTo("late", r)
+		}
+	}
+	ev.Eval()
+	for i := 0; i < 2; i++ {
+		if x, y := observe(a), observe(b); x != y {
+			t.Fatalf("%s %s after a route for %s arrived through %s: caching router answers %s, the twin without cache %s", method, path, pat, call, x, y)
+		}
+	}
+	ev.Class("late-route-through:" + call)
+	ev.NonTrivial(call+path, func() string { return call + " " + path })
+}
+
+type lateCtl struct{ h rux.HandlerFunc }
+
+func (c lateCtl) AddRoutes(r *rux.Router) { r.GET("/{id}", c.h) }
+
+func TestPropLateRegistrationCalls(t *testing.T) { rapid.Check(t, propLateRegistrationCalls) }
